@@ -148,6 +148,36 @@ CHECKS.update({
         'as-is binary64 twin (direct DFT, bit-close); normalize and the spherical representation are checked on the implementation only (sqrt / trigonometry, no theorem)',
         '4/C18',
     ),
+    'C07': (
+        'Theorems (GProofs/C07.lean): every analysis of the model takes the cell only through its metric tensor or through fractional coordinates, and a rigid '
+        'rotation of the lattice vectors leaves the metric tensor unchanged (metric_rot); a common translation of atoms and sites leaves differences, periodic '
+        'distances and sphere membership unchanged (also after re-wrapping the sites, away from ties); translating by k voxels rolls the voxel index by k mod n '
+        '(voxel_translate); relabelling sites moves the counts with them; reordering the site list moves the assigned index with the site. Tie: metamorphic pairs on the '
+        'implementation: base system vs 3 rotations, 2 translations (dyadic / voxel multiples), atom and site permutations, on states, events, jumps, matrix, diffusivity, '
+        'collective count, per-state RDFs, metrics, density volume, free energy, path cost.',
+        'the end-to-end invariance of each analysis is checked metamorphically on the implementation; the theorems cover the mechanisms (metric, translation, roll, relabelling), not '
+        'each analysis pipeline separately; non-reduced strongly skewed cells are excluded (D16 of C02); NoTie',
+        '4/C07',
+    ),
+    'C14': (
+        'Theorems (GProofs/C14.lean, over Q): scaling the cell by k multiplies the volume by k^3 and squared lengths by k^2, hence density / k^3 and diffusivities x k^2; time step x s '
+        'divides diffusivities by s; conductivity quadratic in the ion charge; the speed series telescopes to the final distance and cutting it at sign changes loses nothing: the '
+        'vibration amplitudes of an atom sum to its final distance (amplitudes_sum_final); mean frequency invariant under amplitude scaling of the spectrum and divided by s when '
+        'frequencies are; identical motion gives the centre of mass the same motion (Haven ratio 1). Tie: all metrics vs their formulas from exact model quantities (relative 1e-9) and '
+        'scaling laws as metamorphic pairs on the implementation.',
+        'scipy.signal.periodogram is trusted (only the weighted-mean algebra of meanfreq is proved); sqrt/std by tolerance; TrajectoryMetricsStd checked against numpy mean/std of its parts',
+        '4/C14',
+    ),
+    'C16': (
+        'Theorems (GProofs/C16.lean) on the loader state machine, parametric in parser, file naming and codec (round trip + prefix-free): a load on a consistent file system returns '
+        'parse(args) and leaves a complete cache (load_correct, load_then_hit); for EVERY history of loads, truncations at any byte, deletions and prefix-undecodable garbage every load '
+        'returns parse(args) provided the parser result is determined by the file name (load_correct_any_faults_partial); counterexamples show the need of Keyed (D11) and of the '
+        'garbage-prefix condition; generated obligations: per loader every parameter the parser reads reaches the default cache name (regenerated from trajectory.py each run). '
+        'Tie: real from_lammps / from_vasprun / stubbed from_gromacs on generated files, truncation at byte k, garbage, fault cycles vs the model, argument matrix.',
+        'the unrestricted statement load_correct_any_faults is FALSE for garbage whose proper prefix decodes (counterexample theorem); pickle prefix-freeness / round trip are hypotheses, '
+        'checked on the real files at every tested prefix; torn writes other than prefixes, fsync order and concurrent loaders are not modelled; from_gromacs runs against a stub of MDAnalysis.Universe; D11 repaired by a fix commit',
+        '4/C16',
+    ),
     'C13': (
         'Theorems (GProofs/C13.lean) on the list-level model that follows the code path (selection through filter = through wrapped '
         'positions): the corrected trajectory keeps the original base positions and first frame; under SmallSteps and a non-empty '
